@@ -1,6 +1,10 @@
 use crate::*;
 use std::collections::BTreeMap;
 
+/// The largest burn the builder can account for: a burnt quantity is balanced as a `u64` asset
+/// quantity, which `-2^64` (the lower end of the `Int` range) does not have.
+const MIN_MINT_AMOUNT: i128 = -(u64::MAX as i128);
+
 #[derive(Clone, Debug, Eq, Ord, PartialEq, PartialOrd)]
 enum MintWitnessEnum {
     Plutus(PlutusScriptSourceEnum, Redeemer),
@@ -129,6 +133,9 @@ impl MintBuilder {
         if amount.0 == 0 {
             return Err(JsError::from_str("Mint cannot be zero."));
         }
+        if amount.0 < MIN_MINT_AMOUNT {
+            return Err(JsError::from_str("Mint amount overflow"));
+        }
         let script_mint = self.mints.get(&mint_witness.script_hash());
         Self::validate_mint_witness(mint_witness, script_mint)?;
 
@@ -185,10 +192,10 @@ impl MintBuilder {
     }
 
     /// Sum of the accumulated and the added quantity; an error when it leaves the range of `Int`
-    /// (it would otherwise be truncated on serialization).
+    /// (it would otherwise be truncated on serialization) or is a burn larger than `u64::MAX`.
     fn add_amounts(current: &Int, amount: &Int) -> Result<Int, JsError> {
         match current.0.checked_add(amount.0) {
-            Some(sum) if sum >= Int::MIN_VALUE && sum <= Int::MAX_VALUE => Ok(Int(sum)),
+            Some(sum) if sum >= MIN_MINT_AMOUNT && sum <= Int::MAX_VALUE => Ok(Int(sum)),
             _ => Err(JsError::from_str("Mint amount overflow")),
         }
     }
